@@ -98,6 +98,7 @@ class Machine:
         self.assumptions = set()
         self._ginit = set()
         self.atom_dec = {}
+        self.sign_facts = {}
 
     # ------------------------------------------------------------ memory
     def alloc(self, name, size=0):
@@ -244,9 +245,42 @@ class Machine:
         k = repr(info)
         if k in self.atom_dec:
             return self.atom_dec[k]
+        # order consistency: comparisons of the same two expressions decided earlier on this path restrict the possible
+        # signs of their difference; a later comparison whose outcome follows is not forked (exact arithmetic, no NaN)
+        sk = self._sign_key(info)
+        if sk is not None:
+            key, flip, base = sk
+            poss = self.sign_facts.get(key, frozenset((-1, 0, 1)))
+            sat = {"eq": {0}, "ne": {-1, 1}, "gt": {1}, "ge": {0, 1}, "lt": {-1}, "le": {-1, 0}}[base]
+            if flip:
+                sat = set(-x for x in sat)
+            yes, no = poss & sat, poss - sat
+            if yes and not no:
+                self.atom_dec[k] = True
+                return True
+            if no and not yes:
+                self.atom_dec[k] = False
+                return False
         d = self._decide_atom(info)
         self.atom_dec[k] = d
+        if sk is not None:
+            self.sign_facts[key] = frozenset(yes if d else no)
         return d
+
+    def _sign_key(self, info):
+        """(key of a-b up to sign, flipped?, base predicate) for a floating comparison of two rational forms."""
+        if not (isinstance(info, tuple) and len(info) == 3 and isinstance(info[0], str)):
+            return None
+        pred, a, b = info
+        base = pred[1:] if pred and pred[0] in "ou" and len(pred) == 3 else pred
+        if base not in ("eq", "ne", "gt", "ge", "lt", "le"):
+            return None
+        try:
+            d1, d2 = (a - b), (b - a)
+            k1, k2 = repr(d1.key()), repr(d2.key())
+        except Exception:
+            return None
+        return (k1, False, base) if k1 <= k2 else (k2, True, base)
 
     def _decide_atom(self, info):
         if self.dpos < len(self.decisions):
